@@ -83,8 +83,11 @@ def _feed(tf, case, X):
   return tf.constant(X)
 
 
-def _judge(ctx, prefix, case, layer, X, g, step, label, fetched=None):
-  """fetched = (K, S, bias, y) when the state was read through a TF1 session; otherwise read eagerly from the layer."""
+def _judge(ctx, prefix, case, layer, X, g, step, label, fetched=None, prev=None):
+  """fetched = (K, S, bias, y) when the state was read through a TF1 session; otherwise read eagerly from the layer.
+  prev = (kernel, scale) held by the variables just before the constraints were applied: finalize_constraints() (and an
+  optimizer step) write `variable += projection - variable`, which rounds at the magnitude of the *old* value (kernel
+  entry -38.9 -> 0.0505829 instead of 0.0505847; times the other dimensions' factors: 1.5e-4 at the output, thorough tier)."""
   tf = _state["tf"]
   dims, units = case["dims"], case["units"]
   if fetched is not None:
@@ -108,17 +111,44 @@ def _judge(ctx, prefix, case, layer, X, g, step, label, fetched=None):
   ctx.check(prefix + "/finite", ok_fin, "non-finite output with finite weights", info=info)
   if not ok_fin:
     return None
+  # the dense float64 definition evaluated on the layer's own (float32) weights, and the magnitude of its terms: the
+  # float32 evaluation of the layer is uncertain by eps * (sum of |terms|), which can exceed the output itself when terms of
+  # opposite sign cancel (kernels x30: 1.5e-4 at output scale 5, thorough tier)
+  X3 = X if units > 1 else X[:, None, :]
+  ref = okfl.evaluate(K, S, Bv, X3.astype(np.float64), clip=case["clip"])
+  mag = okfl.evaluate(np.abs(K), np.abs(S), np.abs(Bv), X3.astype(np.float64), clip=case["clip"])
+  te = core.REL_TOL * max(1.0, float(mag.max()))
+  tw = te       # allowance for what the *weights* define
+  if prev is not None and np.all(np.isfinite(prev[0])) and np.all(np.isfinite(prev[1])):
+    magp = okfl.evaluate(np.maximum(np.abs(K), np.abs(prev[0])), np.maximum(np.abs(S), np.abs(prev[1])), np.abs(Bv), X3.astype(np.float64), clip=case["clip"])
+    tw = max(te, 4 * core.F32_EPS * dims * float(magp.max()))
   mono = case["mono"] or []
   if any(mono):
+    # (i) the function the weights define is monotone - judged on the float64 reference, where only the weights matter
+    R = np.asarray(ref, dtype=np.float64).reshape([len(g)] * dims + [units])
+    worst, wd = 0.0, None
+    for d, m in enumerate(mono):
+      if m:
+        v = float((-np.diff(R, axis=d)).max())
+        if v > worst:
+          worst, wd = v, d
+    # the weights are float32 results of the projection: each is rounded by eps relative to itself, and the other
+    # dimensions' factors multiply that up to eps * (sum of |terms|) - the same allowance as the evaluation
+    tr = tw
+    ctx.check(prefix + "/monotone-on-grid", worst <= tr,
+              "the function defined by the weights decreases by %.3g along increasing input %s (tol %.3g) after %s" % (worst, wd, tr, label),
+              info=dict(info, dim=wd, worst=worst), ratio=worst / tr)
+    # (ii) and so is the layer's own float32 output, up to its evaluation uncertainty
     worst, wd = 0.0, None
     for d, m in enumerate(mono):
       if m:
         v = float((-np.diff(Y, axis=d)).max())
         if v > worst:
           worst, wd = v, d
-    ctx.check(prefix + "/monotone-on-grid", worst <= tol,
-              "output decreases by %.3g along increasing input %s (tol %.3g) after %s" % (worst, wd, tol, label),
-              info=dict(info, dim=wd, worst=worst), ratio=worst / tol)
+    tm = max(tol, te + tw)
+    ctx.check(prefix + "/monotone-on-grid", worst <= tm,
+              "output decreases by %.3g along increasing input %s (tol %.3g) after %s" % (worst, wd, tm, label),
+              info=dict(info, dim=wd, worst=worst), ratio=worst / tm)
   if case["omin"] is not None or case["omax"] is not None:
     lo = (case["omin"] - Y.min()) if case["omin"] is not None else -np.inf
     hi = (Y.max() - case["omax"]) if case["omax"] is not None else -np.inf
@@ -128,11 +158,7 @@ def _judge(ctx, prefix, case, layer, X, g, step, label, fetched=None):
               "output range [%.6g, %.6g] leaves [%s, %s] after %s" % (Y.min(), Y.max(), case["omin"], case["omax"], label),
               info=dict(info, min=float(Y.min()), max=float(Y.max())), ratio=max(v, 0) / tb)
   # the evaluation itself, against the dense float64 definition
-  X3 = X if units > 1 else X[:, None, :]
-  ref = okfl.evaluate(K, S, Bv, X3.astype(np.float64), clip=case["clip"])
-  mag = okfl.evaluate(np.abs(K), np.abs(S), np.abs(Bv), X3.astype(np.float64), clip=case["clip"])
   e = float(np.abs(y.reshape(ref.shape) - ref).max())
-  te = core.REL_TOL * max(1.0, float(mag.max()))
   ctx.check(prefix + "/evaluation-equals-kfl-oracle", e <= te, "layer output differs from the KFL definition by %.3g (tol %.3g)" % (e, te),
             info=info, ratio=e / te)
   return float(Y.max() - Y.min())
@@ -176,7 +202,7 @@ def _run_v1(ctx, case, st, rng, mono_arg, X, g):
               sess.run(op)
         K, S, Bv, y = sess.run([layer.kernel, layer.scale, layer.bias, yout], {xin: X})
         ctx.cls("order:" + order)
-        r = _judge(ctx, "state", case, layer, X, g, step, "TF1 session: assign, then %s" % order, fetched=(K, S, Bv, y))
+        r = _judge(ctx, "state", case, layer, X, g, step, "TF1 session: assign, then %s" % order, fetched=(K, S, Bv, y), prev=(k, sc))
         spread = max(spread, r or 0.0)
         keys.append(core.arr_digest(K, S))
   return constrained and spread > 1e-3, core.digest([{k: v for k, v in case.items()}, keys])
@@ -250,7 +276,7 @@ def run_case(ctx, case):
         layer.finalize_constraints()
       prev_s = layer.scale.numpy()
       ctx.cls("order:" + order, "update:" + how)
-      r = _judge(ctx, "state", case, layer, X, g, step, "%s, constraints %s" % (how, order))
+      r = _judge(ctx, "state", case, layer, X, g, step, "%s, constraints %s" % (how, order), prev=(k, s))
       spread = max(spread, r or 0.0)
       keys.append(core.arr_digest(layer.kernel.numpy(), layer.scale.numpy()))
   else:
